@@ -399,4 +399,17 @@ theorem C02_code_writer (pots : List Pot) (cut : Rat) (ngrid : Nat) (out : List 
         Writer.potential_err _ cut ngrid _ _ h4, andThen]
 
 
+open Atsim.Gen.Logic in
+/-- **code tie (the tabulation object)**: `DLPoly_PairTabulation.write` hands `cutoff` and `nr` to the writer -/
+theorem C02_code_tabulation_write (pots : List Pot) (cut : Rat) (ngrid : Nat) (out : List Tok) :
+    dlpoly_tab_write ⟨(ngrid : Int), cut, pots.map Writer.toRec⟩ out =
+      (match dlpolyTable pots cut ngrid with
+       | none => .error WErr.notMultipleOfFour
+       | some t => .ok (out ++ Writer.renderTable t)) := by
+  simp only [dlpoly_tab_write]
+  rw [C02_code_writer]
+  cases dlpolyTable pots cut ngrid with
+  | none => rfl
+  | some t => rfl
+
 end Atsim.C02
